@@ -80,7 +80,17 @@ static inline void gen_dims(pbt::Ctx &c, int type, int maxdim, int &r, int &cc) 
     if (vm::is_T(type)) { r = lo; cc = hi; } else { r = hi; cc = lo; }   // T: rows <= cols; U/E: rows >= cols
 }
 
+// An ideal test port is valid input (a simulated VNA, a well corrected one): directivity, leakage and port
+// match terms drawn below 0.004 become exactly zero (2-5 % of the terms; no tape position is added).
+static inline void snap_ideal(Mat &m) { for (int i = 0; i < m.r; i++) for (int j = 0; j < m.c; j++) if (std::abs(m(i, j)) < 0.004L) m(i, j) = C(0, 0); }
+static inline Box gen_box_raw(pbt::Ctx &c, int type, int r, int cc);
 static inline Box gen_box(pbt::Ctx &c, int type, int r, int cc) {
+    Box b = gen_box_raw(c, type, r, cc);
+    snap_ideal(b.El); snap_ideal(b.Em);
+    for (auto &m : b.Emc) snap_ideal(m);
+    return b;
+}
+static inline Box gen_box_raw(pbt::Ctx &c, int type, int r, int cc) {
     Box b; b.shape(type, r, cc);
     int P = b.P, d = std::min(r, cc);
     auto track = [&]() { return polar(0.6L + 0.6L * c.unit(), 2 * M_PIl * c.unit()); };
